@@ -62,16 +62,20 @@ fn fingerprint<N: Analysis<Ar>>(eg: &EGraph<Ar, N>, known: &[AppliedId]) -> Stri
     for i in eg.ids() {
         let sl: Vec<Slot> = eg.slots(i).iter().copied().collect();
         let ident = eg.mk_identity_applied_id(i);
-        let mut sym = 0;
+        // which permutations of the class's own parameter slots are symmetries (a set, not a count: a group that trades
+        // one symmetry for another has changed the equalities)
+        let mut sym: Vec<usize> = Vec::new();
         if sl.len() <= 4 {
-            for p in perms_of(&sl) {
-                let m: SlotMap = sl.iter().copied().zip(p.into_iter()).collect();
+            let mut sorted = sl.clone();
+            sorted.sort();
+            for (k, p) in perms_of(&sorted).into_iter().enumerate() {
+                let m: SlotMap = sorted.iter().copied().zip(p.into_iter()).collect();
                 if eg.eq(&ident, &ident.apply_slotmap(&m)) {
-                    sym += 1;
+                    sym.push(k);
                 }
             }
         }
-        per.push(format!("{}:{}:{}:{}", i.0, sl.len(), eg.enodes(i).len(), sym));
+        per.push(format!("{}:{}:{}:{:?}", i.0, sl.len(), eg.enodes(i).len(), sym));
     }
     let finds: Vec<String> = known.iter().map(|a| format!("{:?}", eg.find_applied_id(a))).collect();
     format!("{}|{:?}|{:?}", eg.total_number_of_nodes(), per, finds)
@@ -132,6 +136,69 @@ fn run_apply<N: Analysis<Ar> + Default + 'static>(start: &T, rules_idx: &[usize]
         }
     }
     (fails, evals, goals, fps, transitions)
+}
+
+/// rules that permute the four leaves of `(mul (add a b) (add c d))`: each asserts one symmetry of the root class
+fn staged_rules() -> Vec<RuleSpec> {
+    let r = |name, lhs, rhs| RuleSpec { name, lhs, rhs, not_free: None, not_free2: None };
+    vec![
+        r("swap-both", "(mul (add ?a ?b) (add ?c ?d))", "(mul (add ?b ?a) (add ?d ?c))"),
+        r("swap-right", "(mul ?x (add ?c ?d))", "(mul ?x (add ?d ?c))"),
+        r("swap-left", "(mul (add ?a ?b) ?y)", "(mul (add ?b ?a) ?y)"),
+        r("swap-sides", "(mul ?x ?y)", "(mul ?y ?x)"),
+        r("reverse", "(mul (add ?a ?b) (add ?c ?d))", "(mul (add ?d ?c) (add ?b ?a))"),
+        r("rotate-3", "(mul (add ?a ?b) (add ?c ?d))", "(mul (add ?b ?c) (add ?a ?d))"),
+    ]
+}
+const STAGED_LEN: u32 = 4;
+
+/// segment 5: a different single rule per call of apply_rewrites (symmetries learnt one call at a time)
+fn run_staged<N: Analysis<Ar> + Default + 'static>(idx: u64) -> (Vec<Fail>, u64, u64, Vec<u64>, u64) {
+    let specs = staged_rules();
+    let n = specs.len() as u64;
+    let mut seq = Vec::new();
+    let mut c = idx;
+    for _ in 0..STAGED_LEN {
+        seq.push((c % n) as usize);
+        c /= n;
+    }
+    let start = node2("mul", node2("add", v(0), v(1)), node2("add", v(2), v(3)));
+    let mut fails = Vec::new();
+    let mut evals = 0u64;
+    let mut goals = 0u64;
+    let mut fps = Vec::new();
+    let mut eg = EGraph::<Ar, N>::default();
+    let root = eg.add_expr(ar_recexpr(&start));
+    let mut known: Vec<AppliedId> = vec![root.clone()];
+    for (it, ri) in seq.iter().enumerate() {
+        for i in eg.ids() {
+            let a = eg.mk_identity_applied_id(i);
+            if !known.contains(&a) && known.len() < 60 {
+                known.push(a);
+            }
+        }
+        let before = fingerprint(&eg, &known);
+        let rule: Rewrite<Ar, N> = mk_rule(&specs[*ri]);
+        match catch(|| apply_rewrites(&mut eg, &[rule])) {
+            Err(site) => {
+                fails.push(("panic".into(), format!("apply_rewrites panicked: {site}"), format!("call {it} with rule {}", specs[*ri].name)));
+                break;
+            }
+            Ok(changed) => {
+                evals += 1;
+                let after = fingerprint(&eg, &known);
+                fps.push(fnv_str(&after));
+                if !changed && before != after {
+                    fails.push(("false-but-changed".into(), format!("apply_rewrites([{}]) returned false in call {it} but the e-graph changed", specs[*ri].name), format!("rules so far {:?}; before {before} after {after}", seq[..=it].iter().map(|i| specs[*i].name).collect::<Vec<_>>())));
+                }
+                goals |= if changed { 1 } else { 2 };
+                if before != after && before.split('|').next() == after.split('|').next() {
+                    goals |= 4;
+                }
+            }
+        }
+    }
+    (fails, evals, goals, fps, STAGED_LEN as u64)
 }
 
 /// the "not zero" time limit: far above what any enumerated run needs (they take milliseconds), yet finite, so that a
@@ -224,11 +291,10 @@ fn check_saturated<N: Analysis<Ar> + 'static>(eg: &mut EGraph<Ar, N>, rules_idx:
     }
     // Saturation is a statement about the terms and equalities the e-graph represents, not about work it has put off:
     // inserting the start term once more (it was inserted at the beginning, terms are never removed, so this adds
-    // nothing) must not enable any rule.  The step is judged only when the insertion left the number of live classes
-    // as it was, i.e. when the term really was taken as known.
-    let live = eg.ids().len();
+    // nothing) must not enable any rule.  (The very same RecExpr is inserted by the very same computation as at the
+    // beginning; if it is not recognised, the tables are behind the union-find, which is the put-off work in question.)
     let st = start.clone();
-    if catch(|| eg.add_expr(st)).is_err() || eg.ids().len() > live {
+    if catch(|| eg.add_expr(st)).is_err() {
         return;
     }
     let known: Vec<AppliedId> = eg.ids().iter().map(|i| eg.mk_identity_applied_id(*i)).collect();
@@ -500,6 +566,7 @@ impl Prop for SaturateProp {
             Seg { name: "run_eqsat: terms x rule-sets x limits x hooks".into(), count: nt * nr * eqsat_cfgs().len() as u64, what: "one index = start term x rule set x configuration (iter_limit, time_limit 0/max, hook) for run_eqsat".into() },
             Seg { name: "apply_rewrites with the min-size analysis attached: terms x rule-sets".into(), count: nt * nr, what: "as the first segment, on an e-graph with a non-unit analysis (the rebuild work list then carries analysis-only entries next to full ones)".into() },
             Seg { name: "Runner::run with the min-size analysis attached: terms x rule-sets x limits".into(), count: nt * nr * analysis_cfgs().len() as u64, what: "as the second segment with the analysis attached; the hook-free configurations with iter_limit 2/5 and node_limit 10/10000".into() },
+            Seg { name: "staged apply_rewrites: a different single rule per call".into(), count: (staged_rules().len() as u64).pow(STAGED_LEN), what: format!("one index = one sequence of {STAGED_LEN} calls of apply_rewrites, each with ONE of {} rules that permute the four leaves of (mul (add a b) (add c d)): the root class learns its symmetries one call at a time (stabiliser chains of depth two, groups up to order 8 and beyond); false only if the independent fingerprint - which records WHICH permutations are symmetries - is unchanged; run without and with the min-size analysis", staged_rules().len()) },
         ]
     }
     fn replay_exempt(&self, f: &Failure) -> bool {
@@ -515,7 +582,7 @@ impl Prop for SaturateProp {
         vec!["stop_saturated", "stop_iteration_limit", "stop_node_limit", "stop_time_limit", "stop_other_hook", "apply_rewrites_false_seen", "change_without_new_nodes", "hook_shrank_the_graph_from_above_the_node_limit_to_within_it"]
     }
     fn rule(&self) -> String {
-        "Start terms (binder-heavy specials, three-slot terms whose class gains symmetries stepwise, all terms of size <=2 (thorough 3)) x rule sets (each single rule of the model-valid rule pool, 8 chosen pairs/triples, the full pool, the empty set). (1) apply_rewrites up to 5 times: whenever it returns false an independent fingerprint (node count, per-class slots / e-nodes / symmetry count by brute-force eq over all permutations, canonical form of every known invocation) taken before must equal the one taken after. (1) and (2) also on e-graphs with the min-size analysis attached (hook-free configurations). (2) Runner::run and (3) run_eqsat under every combination of iter_limit 0/1/2/5, node_limit 1/10/10000, time_limit 0 / 2 s (far above what any enumerated run needs; the harness clock brackets the call) and hooks none / fail at call 1 / fail at call 2 / fail at 8 nodes / insert a new term on every call / insert and fail at call 2 / union neighbouring classes on every call (the e-graph shrinks; node limits 3..12): report.egraph_nodes equals the e-graph's, iterations <= iter_limit+2, the stop reason is true of the final state (limit really exceeded, hook really failed, TimeLimit only with limit 0 or when the call really lasted that long), and after Saturated one more application of all rules changes nothing and every match of every rule already has equal sides; the same once more after the start term was inserted a second time (it is represented already, so the e-graph denotes what it denoted; judged only when that insertion adds no class): saturation is about the represented terms, not about work the e-graph has put off. A run that does not return within 30 s (each takes well under a millisecond when the property holds) or takes the worker process down is a violation (the loop must end within the iteration bound plus a constant). Non-trivial = runs, distinct states = (reason, iterations, nodes).".into()
+        "Start terms (binder-heavy specials, three-slot terms whose class gains symmetries stepwise, all terms of size <=2 (thorough 3)) x rule sets (each single rule of the model-valid rule pool, 8 chosen pairs/triples, the full pool, the empty set). (1) apply_rewrites up to 5 times: whenever it returns false an independent fingerprint (node count, per-class slots / e-nodes / symmetry count by brute-force eq over all permutations, canonical form of every known invocation) taken before must equal the one taken after. (1) and (2) also on e-graphs with the min-size analysis attached (hook-free configurations). (2) Runner::run and (3) run_eqsat under every combination of iter_limit 0/1/2/5, node_limit 1/10/10000, time_limit 0 / 2 s (far above what any enumerated run needs; the harness clock brackets the call) and hooks none / fail at call 1 / fail at call 2 / fail at 8 nodes / insert a new term on every call / insert and fail at call 2 / union neighbouring classes on every call (the e-graph shrinks; node limits 3..12): report.egraph_nodes equals the e-graph's, iterations <= iter_limit+2, the stop reason is true of the final state (limit really exceeded, hook really failed, TimeLimit only with limit 0 or when the call really lasted that long), and after Saturated one more application of all rules changes nothing and every match of every rule already has equal sides; the same once more after the start term was inserted a second time (the very same term, represented already, so the e-graph denotes what it denoted): saturation is about the represented terms, not about work the e-graph has put off. A run that does not return within 30 s (each takes well under a millisecond when the property holds) or takes the worker process down is a violation (the loop must end within the iteration bound plus a constant). Non-trivial = runs, distinct states = (reason, iterations, nodes).".into()
     }
     fn assumptions(&self) -> Vec<String> {
         vec!["time limits are only 0 or unbounded, the two values whose outcome does not depend on the wall clock".into()]
@@ -529,10 +596,42 @@ impl Prop for SaturateProp {
         let t = (idx % ts.len() as u64) as usize;
         let r = ((idx / ts.len() as u64) % nr) as usize;
         let c = idx / (ts.len() as u64 * nr);
+        if seg == 5 {
+            let specs = staged_rules();
+            let n = specs.len() as u64;
+            let mut c = idx;
+            let mut names = Vec::new();
+            for _ in 0..STAGED_LEN {
+                names.push(specs[(c % n) as usize].name);
+                c /= n;
+            }
+            return json!({"start": "(mul (add (var $0) (var $1)) (add (var $2) (var $3)))", "one_rule_per_call": names, "api": "apply_rewrites"});
+        }
         let api = ["apply_rewrites", "Runner::run", "run_eqsat", "apply_rewrites (min-size analysis)", "Runner::run (min-size analysis)"][seg];
         json!({"start": ts[t].to_sexp(), "rules": rs[r].iter().map(|i| pool[*i].name).collect::<Vec<_>>(), "config_index": c, "api": api})
     }
     fn exec(&self, tier: Tier, _cfg: &str, seg: usize, idx: u64) -> Exec {
+        if seg == 5 {
+            let mut out = Exec::default();
+            for pass in 0..2 {
+                out.traces += 1;
+                match fresh_thread(move || if pass == 0 { run_staged::<()>(idx) } else { run_staged::<crate::props::analysis::ArMinSize>(idx) }) {
+                    Err(site) => out.fail("panic", format!("harness-thread: {site}"), format!("staged sequence {idx}"), &[]),
+                    Ok((fails, evals, goals, fps, transitions)) => {
+                        out.evaluations += evals;
+                        out.transitions += transitions;
+                        out.fps.extend(fps);
+                        out.nontrivial += 1;
+                        out.goals |= ((goals & 2) << 4) | ((goals & 4) << 4);
+                        out.outcomes.push(if fails.is_empty() { format!("truthful(seg5,goals={goals})") } else { fails[0].0.clone() });
+                        for (k, key, d) in fails {
+                            out.fail(&k, key, d, &[]);
+                        }
+                    }
+                }
+            }
+            return out;
+        }
         let ts = terms(tier);
         let rs = rule_sets();
         let nr = rs.len() as u64;
@@ -571,7 +670,7 @@ impl Prop for SaturateProp {
                 out.fps = fps;
                 out.nontrivial = 1;
                 // map per-segment goal bits to the global goal list
-                out.goals = if seg == 0 { ((goals & 2) << 4) | ((goals & 4) << 4) } else { (goals & 31) | ((goals & 32) << 2) };
+                out.goals = if seg == 0 || seg == 3 { ((goals & 2) << 4) | ((goals & 4) << 4) } else { (goals & 31) | ((goals & 32) << 2) };
                 out.outcomes.push(if fails.is_empty() { format!("truthful(seg{seg},goals={goals})") } else { fails[0].0.clone() });
                 let mut seen = BTreeSet::new();
                 for (k, key, d) in fails {
